@@ -3,16 +3,17 @@
 (* C07, version precedence: descriptions of the same interface may be      *)
 (* loaded in any order; after every prefix of every order the table holds  *)
 (* the highest version seen so far of each interface (when two             *)
-(* descriptions have the same version either may stay).                    *)
+(* descriptions have the same version either may stay), and every lookup   *)
+(* - including enum labels that live in *another* interface - answers      *)
+(* from that table.  TLC prints, for every prefix of every order, what the *)
+(* lookups must answer; the harness loads the same files with the real     *)
+(* loader in that order and asks the real lookups.                         *)
 (***************************************************************************)
-EXTENDS Integers, Sequences, FiniteSets, TLC, Json
+EXTENDS Integers, Sequences, FiniteSets, TLC, Json, SequencesExt
 
-CONSTANT Descs      \* set of [name, version, body]
+CONSTANT Descs      \* set of [name, version, tag, msgs, enums]
 
-\* Protocol!LoadOne, restated here without the lookup half of the module
-LoadOne(tbl, d) ==
-  IF d.name \in DOMAIN tbl /\ tbl[d.name].version >= d.version THEN tbl
-  ELSE [x \in DOMAIN tbl \cup {d.name} |-> IF x = d.name THEN d ELSE tbl[x]]
+P(t) == INSTANCE Protocol WITH Proto <- t
 
 VARIABLES tbl, loaded, order
 vars == <<tbl, loaded, order>>
@@ -20,9 +21,9 @@ vars == <<tbl, loaded, order>>
 Empty == [x \in {} |-> 0]
 Init == tbl = Empty /\ loaded = {} /\ order = <<>>
 Load(d) == /\ d \notin loaded
-           /\ tbl' = LoadOne(tbl, d)
+           /\ tbl' = P(tbl)!LoadOne(tbl, d)
            /\ loaded' = loaded \cup {d}
-           /\ order' = Append(order, d)
+           /\ order' = Append(order, d.tag)
 Next == \E d \in Descs : Load(d)
 
 MaxVersion(nm) == LET vs == {d.version : d \in {x \in loaded : x.name = nm}} IN CHOOSE v \in vs : \A w \in vs : w <= v
@@ -31,10 +32,45 @@ HighestWins == \A nm \in {d.name : d \in loaded} :
                   /\ tbl[nm].version = MaxVersion(nm)
                   /\ tbl[nm] \in loaded
 NothingElse == DOMAIN tbl = {d.name : d \in loaded}
-\* the result does not depend on the order, apart from the choice among equal versions
 OrderFree == \A nm \in DOMAIN tbl : \A d \in loaded : (d.name = nm /\ d.version > tbl[nm].version) => FALSE
 
-D(n, v, b) == [name |-> n, version |-> v, body |-> b]
-Descs6 == {D("zz_a", 1, "a1"), D("zz_a", 3, "a3"), D("zz_a", 2, "a2"), D("zz_b", 2, "b2"), D("zz_b", 2, "b2x"), D("zz_b", 1, "b1")}
-Emit == Len(order') = Cardinality(Descs) => PrintT(<<"ORDER", ToJson([order |-> order', tbl |-> [x \in DOMAIN tbl' |-> tbl'[x].body]])>>)
+\* descriptions
+A(n, ty, i, ei, en) == [name |-> n, type |-> ty, iface |-> i, eiface |-> ei, ename |-> en]
+E(bf, entries) == [bitfield |-> bf, entries |-> entries]
+En(n, v) == [name |-> n, value |-> v]
+NoEnums == [none |-> E(FALSE, <<>>)]
+Src1 == [name |-> "zz_src", version |-> 1, tag |-> "src1", msgs |-> [ping |-> <<>>],
+         enums |-> [kind |-> E(FALSE, <<En("one", 1)>>)]]
+Src2 == [name |-> "zz_src", version |-> 2, tag |-> "src2", msgs |-> [ping |-> <<A("serial", "uint", "", "", "")>>],
+         enums |-> [kind |-> E(FALSE, <<En("one", 1), En("two", 2)>>)]]
+User1 == [name |-> "zz_user", version |-> 1, tag |-> "user1",
+          msgs |-> [use |-> <<A("mode", "uint", "", "zz_src", "kind")>>, own |-> <<A("m", "uint", "", "", "flags")>>],
+          enums |-> [flags |-> E(TRUE, <<En("x", 1)>>)]]
+User2 == [name |-> "zz_user", version |-> 2, tag |-> "user2",
+          msgs |-> [use |-> <<A("mode", "uint", "", "zz_src", "kind"), A("target", "object", "zz_src", "", "")>>,
+                    own |-> <<A("m", "uint", "", "", "flags")>>],
+          enums |-> [flags |-> E(TRUE, <<En("x", 1), En("y", 2)>>)]]
+Other2a == [name |-> "zz_b", version |-> 2, tag |-> "b2", msgs |-> [b2 |-> <<A("q", "uint", "", "", "")>>], enums |-> NoEnums]
+Other2b == [name |-> "zz_b", version |-> 2, tag |-> "b2x", msgs |-> [b2x |-> <<A("q", "uint", "", "", "")>>], enums |-> NoEnums]
+Descs6 == {Src1, Src2, User1, User2, Other2a, Other2b}
+
+\* the questions asked after every load
+Q(q, i, m, k, v) == [q |-> q, i |-> i, m |-> m, k |-> k, v |-> v]
+Questions == <<Q("enum", "zz_user", "use", 1, 1), Q("enum", "zz_user", "use", 1, 2), Q("enum", "zz_user", "use", 1, 3),
+               Q("enum", "zz_user", "own", 1, 1), Q("enum", "zz_user", "own", 1, 2), Q("enum", "zz_user", "own", 1, 3),
+               Q("enum", "zz_user", "own", 1, 4),
+               Q("name", "zz_user", "use", 1, 0), Q("name", "zz_user", "use", 2, 0), Q("nil", "zz_user", "use", 2, 0),
+               Q("name", "zz_src", "ping", 1, 0), Q("name", "zz_b", "b2", 1, 0), Q("name", "zz_b", "b2x", 1, 0)>>
+Answer(t, x) ==
+  CASE x.q = "name" -> IF P(t)!ArgStatus(x.i, x.m, x.k) = "error" THEN "!error" ELSE P(t)!ArgName(x.i, x.m, x.k)
+    [] x.q = "nil"  -> IF P(t)!ArgStatus(x.i, x.m, x.k) = "error" THEN "!error" ELSE P(t)!NilIface(x.i, x.m, x.k)
+    [] x.q = "enum" -> IF P(t)!ArgStatus(x.i, x.m, x.k) = "error" THEN <<"!error">> ELSE P(t)!EnumLabels(x.i, x.m, x.k, x.v)
+Answers(t) == [j \in 1..Len(Questions) |-> Answer(t, Questions[j])]
+
+\* the answers are a function of the table alone: two orders that end in the same table answer alike (checked as
+\* an invariant over the emitted prefixes by the harness; here: the table decides)
+Emit == PrintT(<<"ORDER", ToJson([order |-> order', versions |-> [x \in DOMAIN tbl' |-> tbl'[x].version],
+                                  tags |-> [x \in DOMAIN tbl' |-> tbl'[x].tag], answers |-> Answers(tbl')])>>)
+EmitDescs == PrintT(<<"DESCS", ToJson(SetToSeq(Descs)), ToJson(Questions)>>)
+EmitAll == Emit /\ (Len(order') = 1 => EmitDescs)
 =============================================================================
